@@ -129,6 +129,7 @@ func impl(ops []string) []string {
 	defer func() { chainPool.Put(w.c) }()
 	scorer := node.NewHashPoolScorer(encryption.NewXORHashScorer())
 	outs := make([]string, len(ops))
+	poisoned, inAdd := false, false
 	sharder := func(id string) *node.Node {
 		if nd := w.pool.GetNode(id); nd != nil {
 			return nd // the pool's own object (identity is by pointer in IsInTop)
@@ -141,10 +142,23 @@ func impl(ops []string) []string {
 			defer func() {
 				if r := recover(); r != nil {
 					outs[i] = "panic"
+					if inAdd {
+						// Pool.AddNode holds the pool's mutex without defer: after a panic inside it every later call on
+						// that pool would block for ever. The rest of the segment is answered without touching it.
+						poisoned = true
+					}
 				}
 			}()
 			outs[i] = "bad-op"
 			if len(f) == 0 {
+				return
+			}
+			inAdd = f[0] == "add" || f[0] == "addm" || f[0] == "padd"
+			if f[0] == "new" {
+				poisoned = false
+			}
+			if poisoned {
+				outs[i] = "pool-left-locked-by-panic"
 				return
 			}
 			switch {
@@ -498,7 +512,7 @@ func setOf(ans string) string {
 		ids = append(ids, strings.SplitN(x, ":", 2)[0])
 	}
 	sort.Strings(ids)
-	return g[0] + " " + strings.Join(ids, " ")
+	return strings.TrimSpace(g[0] + " " + strings.Join(ids, " "))
 }
 
 // oracle: the property on the implementation's answers. The members of pool 0 are the ids added to it (by `add` or
